@@ -249,6 +249,8 @@ def clone_part(ctx):
 
     def add_case(klass, feats, P, root, mode, mask, use_map, dumps=0, split=0):
         if mode == 'swap': mask &= ~(1 << FBIT['nested'])
+        if mode == 'cycle':
+            cases.append((klass, feats, P, root, mode, ALL, use_map, 'run cycle:%d:%d %d %d %s' % (mask, split, use_map, dumps, P.tokens()))); return
         m = mode if mode in ('clone', 'oldclone') else ('%s:%d:%d' % (mode, mask, split) if mode == 'swap' else '%s:%d' % (mode, mask))
         cases.append((klass, feats, P, root, mode, mask if mode not in ('clone', 'oldclone') else ALL, use_map, 'run %s %d %d %s' % (m, use_map, dumps, P.tokens())))
 
@@ -270,6 +272,9 @@ def clone_part(ctx):
             for mode in ('pick', 'fclone', 'vec'):
                 for mask in (ALL, rng.getrandbits(len(FIELDS)), 1 << rng.randrange(len(FIELDS))):
                     add_case(klass, feats, P, root, mode, mask, rng.choice([1, 1, 0]))
+            # one builder over three build cycles, the map left installed across the reset (default / explicit emitter, reset / custom_reset flags)
+            for ek, rk in ((1, 0), (rng.choice([0, 1]), rng.randrange(5))):
+                add_case(klass, feats, P, root, 'cycle', ek, rng.choice([1, 1, 0]), split=rk)
             # the refmap is swapped out and back (nested buffer idiom) between two groups of picks
             for split in (FBIT['right'], rng.randrange(1, len(FIELDS)), rng.randrange(FBIT['left'], len(FIELDS))):
                 add_case(klass, feats, P, root, 'swap', ALL, rng.choice([1, 1, 1, 0]), split=split)
@@ -295,6 +300,11 @@ def clone_part(ctx):
     add_case('uvec_none', {'unone'}, P, n, 'clone', ALL, 0)
     P = Prog(); n8 = P.add('N8', '77'); n = P.add('N', 'id=1,nested8=0', (), {'nested8': [n8]})
     add_case('nested8', {'nested8'}, P, n, 'clone', ALL, 0)
+    P = Prog(); s0 = P.add('S', '6869'); lf = P.add('LF', 'name=0,val=3', [s0]); n1 = P.add('N', 'id=1,name=0,leaf=1', (), {'name': [s0], 'leaf': [lf]})
+    n2 = P.add('N', 'id=2,name=0,left=2,right=2,leaf=1', (), {'name': [s0], 'left': [n1], 'right': [n1], 'leaf': [lf]})
+    for ek in (1, 0):
+        for rk in range(5):
+            for use_map in (1, 0): add_case('reset_cycle', set(), P, n2, 'cycle', ek, use_map, split=rk)
     for use_map in (1, 0):
         raw = overlapping_string_vector()
         cases.append(('overlap_raw', set(), None, None, 'clone', ALL, use_map, 'raw clone %d 1 %s' % (use_map, raw.hex())))
@@ -394,6 +404,15 @@ def clone_part(ctx):
         if r.startswith('ERR') or r.startswith('BAD'):
             ctx.violation('clone-source:%s' % klass, 'the harness could not build / verify the source buffer: ' + r[:200], rep); continue
         kv = dict(p.split('=', 1) for p in r.split(' | ')[0].split()[1:] if '=' in p)
+        if mode == 'cycle':
+            if kv.get('cyc') != '0' or kv.get('same') != '1' or kv.get('mapreset') != '1':
+                ek, rk = line.split()[1].split(':')[1:3]
+                ctx.violation(dkey or 'clone-reset-cycle:emitter%s:reset%s' % (ek, rk),
+                              'one builder, reference map left installed across the reset (%s emitter, %s): build cycle %s differs from a fresh builder: verify %s, reads equal %s, shares like the source %s, '
+                              'same bytes as the first cycle %s, map empty after reset %s' % ('explicit flatcc_emitter context via custom_init' if ek == '1' else 'default',
+                               'flatcc_builder_reset' if rk == '0' else 'custom_reset(set_defaults=%d, reduce_buffers=%d)' % (rk in '24', rk in '34'),
+                               kv.get('cyc'), kv.get('dstv'), kv.get('val'), kv.get('share'), kv.get('same'), kv.get('mapreset')) + what_extra, rep)
+            continue
         if 'failed' in kv:
             viol('failed', 'clone/pick of a verified buffer fails (returns %s) (%s, refmap %d)' % (kv['failed'], mode, use_map)); continue
         if kv.get('dstv') != '0':
